@@ -1,2 +1,66 @@
-(* C15 - theorems follow in this commit series *)
-From TW Require Import Bytes.
+(* C15 - concurrent use of the rendering entry points is safe.
+   What is proved: (a) on the call graph and footprint tables regenerated from /repo's source on
+   every run, no function reachable from String / Response / EvaluateString / EvaluateFile assigns
+   a package-level variable, the only method called on one is the ATOMIC store of the mode flag,
+   and that flag is read by nothing reachable from them; (b) the generic theorem: when no step of
+   any call changes what steps read, then in EVERY interleaving each call is exactly where it would
+   be running alone - so it returns what it returns alone.
+   What is not proved (named in DESIGN.md section 10): the Go memory model, that per-call heap
+   objects (environment, evaluator, buffers) are not shared between calls, and the call-graph
+   over-approximation of the translator. The race-detector runs of the check look for a schedule
+   that contradicts (a). *)
+From Coq Require Import String List NArith.
+From TW Require Import GenFootprint Footprint.
+Import ListNotations.
+Local Open Scope string_scope.
+
+Theorem C15_render_paths_assign_no_shared_variable : collect fp_writes render_entries = [].
+Proof. exact render_paths_assign_nothing. Qed.
+Print Assumptions C15_render_paths_assign_no_shared_variable.
+
+Theorem C15_only_shared_effect_is_the_atomic_flag_store :
+  collect fp_touches render_entries = ["textwire.usesTemplates.Store"].
+Proof. exact render_paths_touch_only_the_atomic_flag. Qed.
+Print Assumptions C15_only_shared_effect_is_the_atomic_flag_store.
+
+Theorem C15_no_render_path_reads_the_flag :
+  In "textwire.usesTemplates" (collect fp_reads render_entries) -> False.
+Proof. exact render_paths_never_read_the_flag. Qed.
+Print Assumptions C15_no_render_path_reads_the_flag.
+
+Theorem C15_shared_state_read_is_the_reviewed_list :
+  collect fp_reads render_entries =
+  ["evaluator.BREAK"; "evaluator.CONTINUE"; "evaluator.FALSE"; "evaluator.NIL"; "evaluator.TRUE"; "evaluator.functions";
+   "lexer.simpleTokens"; "lexer.tokensWithOptionalParens"; "lexer.tokensWithoutParens"; "object.outputHTML";
+   "parser.precedences"; "textwire.customFunc"; "textwire.defaultErrorPage"; "textwire.userConfig";
+   "token.directives"; "token.keywords"; "token.tokens"].
+Proof. exact render_paths_read_only_reviewed_state. Qed.
+Print Assumptions C15_shared_state_read_is_the_reviewed_list.
+
+Theorem C15_every_interleaving_is_sequential
+  (S L R : Type) (view : S -> S) (step : S -> L -> S * (L + R))
+  (frame : forall s l, view (fst (step s l)) = view s)
+  (blind : forall s s' l, view s = view s' -> snd (step s l) = snd (step s' l))
+  sched s ts i c0 :
+  nth_error ts i = Some c0 ->
+  view (fst (run S L R step sched s ts)) = view s /\
+  nth_error (snd (run S L R step sched s ts)) i = Some (alone S L R step (count i sched) s c0).
+Proof. exact (schedule_independent S L R view step frame blind sched s ts i c0). Qed.
+Print Assumptions C15_every_interleaving_is_sequential.
+
+Theorem C15_finished_calls_return_what_they_return_alone
+  (S L R : Type) (view : S -> S) (step : S -> L -> S * (L + R))
+  (frame : forall s l, view (fst (step s l)) = view s)
+  (blind : forall s s' l, view s = view s' -> snd (step s l) = snd (step s' l))
+  sched s ts i l r :
+  nth_error ts i = Some (inl l) ->
+  nth_error (snd (run S L R step sched s ts)) i = Some (inr r) ->
+  alone S L R step (count i sched) s (inl l) = inr r.
+Proof. exact (finished_result_is_the_sequential_one S L R view step frame blind sched s ts i l r). Qed.
+Print Assumptions C15_finished_calls_return_what_they_return_alone.
+
+(* non-vacuity of the analysis: the entry points are found, and loading / registering DO write *)
+Example C15_entry_points_found : List.length (entries render_entries) = 4%nat.
+Proof. exact render_entries_exist. Qed.
+Example C15_analysis_sees_writes : collect fp_writes ["textwire.NewTemplate"; "textwire.RegisterStrFunc"] <> [].
+Proof. exact load_paths_do_write. Qed.
